@@ -15,7 +15,8 @@ Pairs == {<<[f |-> f, v |-> v], [f |-> g, v |-> w]>> : f \in {"SizeOfHeaders", "
                                                        g \in {"dd4.VirtualAddress", "sec1.PointerToRawData", "dd4.Size", "NumberOfSections"}, w \in {"0", "FILELEN", "HUGE", "9"}}
 CertEnd == {<<[f |-> "dd4.Size", v |-> v]>> : v \in {"DWLEN", "DWLEN+1", "DWLEN+3", "DWLEN+7", "DWLEN-1", "13", "16", "17"}}      \* table ends inside / right after the last entry, before its padding
 Trunc == {<<[f |-> "truncate", v |-> v]>> : v \in {"0", "1", "63", "64", "96", "HALF", "FILELEN-1", "SOH", "SOH-1", "CERT", "CERT+8", "CERT+9"}}
-Init == done = FALSE /\ \E b \in Bases, o \in Single \cup Trunc \cup CertEnd \cup (IF Tier = "t" THEN Pairs ELSE {p \in Pairs : p[1].v = "HUGE" \/ p[2].v = "HUGE"}) :
+Alias == {<<[f |-> "sections.alias", v |-> v]>> : v \in {"1", "2", "16", "200", "1500"}}   \* that many further section headers claim the raw data of section 0
+Init == done = FALSE /\ \E b \in Bases, o \in Single \cup Trunc \cup CertEnd \cup Alias \cup (IF Tier = "t" THEN Pairs ELSE {p \in Pairs : p[1].v = "HUGE" \/ p[2].v = "HUGE"}) :
            cfg = [base |-> b, overrides |-> o]
 Next == ~done /\ done' = TRUE /\ UNCHANGED cfg
 Emit == done => PrintT(ToJson(cfg))
